@@ -66,6 +66,8 @@ pub struct Faults {
     pub until_us: Option<u64>,
     /// blackhole: drop everything in this direction from this datagram index on
     pub blackhole: HashMap<String, u64>,
+    /// drop everything handed to the network from this virtual time on
+    pub blackhole_after_us: Option<u64>,
     pub rng: Rng,
 }
 impl Faults {
@@ -103,12 +105,16 @@ impl Faults {
             trunc: g("trunc"),
             until_us: v.get("until_ms").and_then(|x| x.as_u64()).map(|m| m * 1000),
             blackhole,
+            blackhole_after_us: v.get("blackhole_after_ms").and_then(|x| x.as_u64()).map(|m| m * 1000),
             rng: Rng(seed ^ 0x5eed_fa17),
         }
     }
     fn fate(&mut self, dir: &str, idx: u64, len: usize, now_us: u64) -> Fate {
         if let Some(f) = self.explicit.get(&(dir.to_string(), idx)) {
             return f.clone();
+        }
+        if self.blackhole_after_us.map(|u| now_us >= u).unwrap_or(false) {
+            return Fate::Drop;
         }
         if let Some(from) = self.blackhole.get(dir) {
             if idx >= *from {
